@@ -1424,7 +1424,7 @@ class PureInterp:
                         raise Raised("KeyError", str(exc))
                     except (IndexError, ValueError, TypeError) as exc:
                         raise Raised(type(exc).__name__, str(exc))
-                    return list(res) if name in ("items", "keys", "values") else res
+                    return res      # dict views stay views: they compare like sets and follow later changes of the dictionary
             if isinstance(recv, SymPath):
                 if name in SYMPATH_PURE:
                     try:
